@@ -32,8 +32,12 @@ example : ({ id := "a b\t\n".toList, short := ['\x00', 'é', ';'], symbols := "1
 theorem deserialize_serialize_tab_counterexample :
     ¬ ∀ (m : Msg), deserialize id (serialize m) = .ok (m.sanitize id) := by
   intro h
-  have := h { id := ['x'], stack := [{ file := ['a', '\t', 'b'], origFile := ['o'], line := 1, col := 2 }] }
-  revert this
+  have e := h { id := ['x'], stack := [{ file := ['a', '\t', 'b'], origFile := ['o'], line := 1, col := 2 }] }
+  have c : (match deserialize id (serialize { id := ['x'], stack := [{ file := ['a', '\t', 'b'], origFile := ['o'], line := 1, col := 2 }] }) with
+      | .ok m' => decide (m'.stack.map (·.file) = [['a', '\t', 'b']])
+      | .error _ => false) = false := by decide
+  rw [e] at c
+  revert c
   decide
 
 /-- F11: `sanitize` is not the identity — a message with a byte outside 0x20..0x7e arrives changed -/
@@ -242,14 +246,15 @@ example : ∀ m ∈ forwarded (exCfg true false) exRaws [0, 1], (Ev.err m).good 
 example : (forwarded (exCfg true false) exRaws [0, 1]).length = 5 := by decide
 /-- a complete schedule of the thread model (two workers, interleaved) and one of the process model exist for it -/
 example : (match trun (exCfg true false) exRaws (tinit [0, 1] 2)
-      [.next 0, .next 1, .gate 1, .gate 0, .print 0, .print 1, .gate 0, .gate 1, .print 1, .gate 0, .print 0, .next 0, .next 1] with
-    | some s => s.terminal && (s.sink.reported.length == 3) && (s.result == 1)
+      [.next 0, .next 1, .gate 1, .gate 0, .print 1, .gate 0, .gate 1, .gate 0, .print 0, .print 1, .next 0, .next 1] with
+    | some s => s.terminal && (s.sink.reported.length == 3) && (s.result == 2)
     | none => false) = true := by decide
+set_option maxRecDepth 8000 in
 example : (match prun (exCfg true false) 2 exRaws (fun _ => [(true, { errorId := "x".toList, fileName := "h.h".toList, lineNumber := 3 })])
       (pinit [0, 1])
       [.fork, .fork, .send 1, .send 0, .send 0, .read 1, .send 1, .send 1, .send 1, .send 0, .read 0, .send 0, .send 0, .exit 1, .read 1,
-       .read 0, .read 0, .read 1, .read 1, .reap 1, .exit 0, .read 0, .read 0, .read 0, .reap 0] with
-    | some s => s.terminal && (s.parent.sink.reported.length == 3) && (s.parent.result == 1) && (s.parent.recv.length == 2)
+       .read 0, .read 0, .read 1, .read 1, .reap 1, .exit 0, .read 0, .read 0, .reap 0] with
+    | some s => s.terminal && (s.parent.sink.reported.length == 3) && (s.parent.result == 2) && (s.parent.recv.length == 2)
     | none => false) = true := by decide
 
 /-- F11 (process executor prints sanitised text): the message `caf\xc3\xa9` is transportable, the process model runs to the
@@ -279,5 +284,55 @@ theorem process_text_nonascii_counterexample :
   have := List.perm_singleton.1 hp
   revert this
   decide
+
+/-- `--safety --suppress=syntaxError`: the id is critical and matched by a non-local suppression -/
+def safetyCfg : Cfg :=
+  { key := fun m => m.id, key2 := fun m => m.id, supG := fun v => v.errorId = "syntaxError".toList,
+    supGX := fun v => v.errorId = "syntaxError".toList, critical := fun id => id = "syntaxError".toList, safety := true, simp := id }
+
+/-- F11c: outside `safetyOK` the executors really differ — the single executor model ends with exit status 1 (critical
+    error seen), the thread executor model, under its only complete schedule for one worker, with 0. -/
+theorem thread_safety_counterexample :
+    ∃ (cfg : Cfg) (raws : Nat → List Raw) (σ : List TLabel) (s' : TState Nat),
+      cfg.emitDuplicates = false ∧ (∀ f ∈ [0], keyOK cfg (raws f) = true ∧ dedupOK cfg (raws f) = true) ∧
+      trun cfg raws (tinit [0] 1) σ = some s' ∧ s'.terminal = true ∧
+      exitStatus cfg s'.result s'.sink ≠ exitStatus cfg (runSingle cfg raws [0]).result (runSingle cfg raws [0]).sink := by
+  let raws : Nat → List Raw := fun _ => [{ msg := exMsg "syntaxError" "bad" }]
+  have hrun : ∃ s', trun safetyCfg raws (tinit [0] 1) [.next 0, .gate 0, .next 0] = some s' ∧ s'.terminal = true ∧
+      exitStatus safetyCfg s'.result s'.sink = 0 := by
+    cases h : trun safetyCfg raws (tinit [0] 1) [.next 0, .gate 0, .next 0] with
+    | none => revert h; decide
+    | some s' => refine ⟨s', rfl, ?_, ?_⟩ <;> (revert h; decide +revert)
+  obtain ⟨s', h1, h2, h3⟩ := hrun
+  refine ⟨safetyCfg, raws, _, s', rfl, by decide, h1, h2, ?_⟩
+  rw [h3]
+  decide
+
+/-- `--template={id} --suppress=nullPointer:*.c:2`: a global suppression that matches the first of two findings with
+    the same text -/
+def dedupCfg (fix : Bool) : Cfg :=
+  { key := fun m => m.id, key2 := fun m => m.id, supG := fun v => v.errorId = "nullPointer".toList ∧ v.line = 2,
+    supGX := fun v => v.errorId = "nullPointer".toList ∧ v.line = 2, critical := fun _ => false, dedupFix := fix, simp := id }
+
+def dedupRaws : Nat → List Raw := fun _ =>
+  [{ msg := { id := "nullPointer".toList, severity := .error, short := ['p'], stack := [{ file := ['a'], origFile := ['a'], line := 2, col := 1 }] } },
+   { msg := { id := "nullPointer".toList, severity := .error, short := ['q'], stack := [{ file := ['a'], origFile := ['a'], line := 4, col := 1 }] } }]
+
+/-- F11d (current lib/cppcheck.cpp, `dedupFix = false`): outside `dedupOK` the single executor model reports the second
+    finding (result 1), the thread executor model reports nothing (result 0). -/
+theorem thread_dedup_counterexample :
+    ∃ (σ : List TLabel) (s' : TState Nat),
+      trun (dedupCfg false) dedupRaws (tinit [0] 1) σ = some s' ∧ s'.terminal = true ∧
+      s'.sink.reported.length = 0 ∧ s'.result = 0 ∧
+      (runSingle (dedupCfg false) dedupRaws [0]).sink.reported.length = 1 ∧ (runSingle (dedupCfg false) dedupRaws [0]).result = 1 := by
+  have hsome : (trun (dedupCfg false) dedupRaws (tinit [0] 1) [.next 0, .gate 0, .next 0]).isSome = true := by decide
+  cases h : trun (dedupCfg false) dedupRaws (tinit [0] 1) [.next 0, .gate 0, .next 0] with
+  | none => rw [h] at hsome; cases hsome
+  | some s' =>
+    refine ⟨_, s', h, ?_, ?_, ?_, by decide, by decide⟩ <;> (revert h; decide +revert)
+
+/-- … and with /verif/proposed/C15-suppressed-dedup-jobs.diff (`dedupFix = true`) the same input satisfies `dedupOK`,
+    so `thread_eq_single` applies to it -/
+example : dedupOK (dedupCfg true) (dedupRaws 0) = true ∧ dedupOK (dedupCfg false) (dedupRaws 0) = false := by decide
 
 end Cppcheck.Exec
